@@ -118,6 +118,8 @@ def shard(ctx):
                 if got.get(v) != a:
                     ctx.violation("hash", dict(sub="case_insensitive"), dict(string_hex=s.hex()[:400], a=a, b=got.get(v)), files=[inp])
             ctx.stats.classes["case-pair"] += 1
+    # the free hash functions called from several threads at once (any table or memo behind them is shared by construction)
+    ctx.shared_between_threads(["hash %s" % x.hex() for x in strs[:40] if x and all(32 <= c < 127 for c in x)], "hash-functions", reps=30)
     if not P.get("small"):
         index_lookups(ctx, rng)
     # ---- SHA-1 through FileInfo::new
@@ -230,6 +232,11 @@ def index_lookups(ctx, rng):
                 ctx.case(digest("idx-absent", kind, q), True, ["index-lookup:absent"])
                 if ro.ok and ro.value is not False:
                     ctx.violation("hash", dict(sub="absent_path_found_in_index", index=kind), dict(queried=q), files=[f])
+        # the same lookups and the free hash functions from several threads at once (one shared index object)
+        lines = []
+        for p in paths[:20]:
+            lines += ["idx.exists %d %s" % (h, p.swapcase().encode().hex()), "idx.find %d %s" % (h, p.encode().hex()), "idx.exists %d %s" % (h, (p + "x").encode().hex()), "hash %s" % p.encode().hex()]
+        ctx.shared_between_threads(lines, "index%d+hashes" % kind, files=[f])
         ctx.call("drop", h)
 
 
